@@ -1,9 +1,9 @@
 """Unit crypto (Verus): anemo's identity-attribution glue around rustls / webpki (C01 glue, C03 pin).
 
 Functions under contract: crypto.rs ExpectedCertVerifier::verify_server_cert, the six verify_tls1{2,3}_signature impls,
-CertVerifier::{offer_client_auth, client_auth_mandatory}, prepare_for_self_signed; connection.rs Connection::{new, try_peer_id}.
+CertVerifier::{offer_client_auth, client_auth_mandatory}, peer_id_from_certificate; connection.rs Connection::{new, try_peer_id}.
 Everything cryptographic is an uninterpreted predicate: rustls::crypto::verify_tls1x_signature, webpki, x509 parsing.
-NOT verified: CertVerifier::verify_client_cert / verify_server_cert (iterator + closure pipelines over &str), peer_id_from_certificate,
+NOT verified: CertVerifier::verify_client_cert / verify_server_cert (iterator + closure pipelines over &str),
 and the two statics SUPPORTED_SIG_ALGS / SUPPORTED_ALGORITHMS (checked textually, see `structural`).
 """
 import re
@@ -57,11 +57,60 @@ pub mod rustls {
             ensures r is Ok <==> sig_ok(true, message@, *cert, *dss, *algs) { unimplemented!() }
     }
 }
-// identity = public key bytes parsed from the certificate (x509-parser + pkcs8): uninterpreted, may fail
-pub uninterp spec fn cert_id(cert: CertificateDer) -> core::result::Result<PeerId, rustls::Error>;
-#[verifier::external_body]
-pub fn peer_id_from_certificate(certificate: &CertificateDer) -> (r: core::result::Result<PeerId, rustls::Error>)
-    ensures r is Ok <==> cert_id(*certificate) is Ok, r is Ok ==> r->Ok_0 == cert_id(*certificate)->Ok_0 { unimplemented!() }
+// identity = the Ed25519 key decoded (pkcs8) from the SubjectPublicKeyInfo of the X.509-parsed certificate.  The two parsers are
+// uninterpreted (x509-parser, ed25519/pkcs8); WHICH field is decoded, and that every failure is an error, is verified below
+pub uninterp spec fn x509_spki(der: Seq<u8>) -> Option<Seq<u8>>;              // x509-parser: raw SubjectPublicKeyInfo of a well-formed certificate
+pub uninterp spec fn x509_other_key_like_field(der: Seq<u8>) -> Seq<u8>;       // anything else the parser exposes (never the identity)
+pub uninterp spec fn ed25519_of_spki(raw: Seq<u8>) -> Option<[u8; 32]>;       // pkcs8::DecodePublicKey for ed25519::pkcs8::PublicKeyBytes
+pub open spec fn cert_id(cert: CertificateDer) -> core::result::Result<PeerId, ()> {
+    match x509_spki(cert.der) {
+        Some(raw) => match ed25519_of_spki(raw) { Some(k) => Ok(PeerId(k)), None => Err(()) },
+        None => Err(()),
+    }
+}
+impl CertificateDer {
+    #[verifier::external_body] pub fn as_ref(&self) -> (r: &[u8]) ensures r@ == self.der { unimplemented!() }
+}
+pub mod x509_parser {
+    use super::*;
+    pub struct X509Error;
+    pub mod certificate {
+        use super::super::*;
+        pub struct SubjectPublicKeyInfo<'a> { pub raw: &'a [u8], pub subject_public_key: &'a [u8] }
+        pub struct TbsCertificate<'a> { pub subject_pki: SubjectPublicKeyInfo<'a>, pub raw_serial: &'a [u8] }
+        pub struct X509Certificate<'a> { pub tbs_certificate: TbsCertificate<'a>, pub signature_value: &'a [u8] }
+        impl<'a> X509Certificate<'a> {
+            #[verifier::external_body]
+            pub fn public_key(&self) -> (r: &SubjectPublicKeyInfo<'a>) ensures *r == self.tbs_certificate.subject_pki { unimplemented!() }
+        }
+        impl<'a> super::prelude::FromDer<'a> for X509Certificate<'a> {
+            #[verifier::external_body]
+            fn from_der(i: &'a [u8]) -> (r: core::result::Result<(&'a [u8], Self), super::X509Error>)
+                ensures r is Ok <==> x509_spki(i@) is Some, r is Ok ==> r->Ok_0.1.tbs_certificate.subject_pki.raw@ == x509_spki(i@)->Some_0
+            { unimplemented!() }
+        }
+    }
+    pub mod prelude {
+        pub trait FromDer<'a>: Sized { fn from_der(i: &'a [u8]) -> core::result::Result<(&'a [u8], Self), super::X509Error>; }
+    }
+}
+pub mod pkcs8 {
+    pub struct SpkiError;
+    pub trait DecodePublicKey: Sized { fn from_public_key_der(bytes: &[u8]) -> core::result::Result<Self, SpkiError>; }
+}
+pub mod ed25519 {
+    pub mod pkcs8 {
+        use super::super::*;
+        pub struct PublicKeyBytes(pub [u8; 32]);
+        impl PublicKeyBytes { #[verifier::external_body] pub fn to_bytes(&self) -> (r: [u8; 32]) ensures r == self.0 { unimplemented!() } }
+        impl super::super::pkcs8::DecodePublicKey for PublicKeyBytes {
+            #[verifier::external_body]
+            fn from_public_key_der(bytes: &[u8]) -> (r: core::result::Result<Self, super::super::pkcs8::SpkiError>)
+                ensures r is Ok <==> ed25519_of_spki(bytes@) is Some, r is Ok ==> r->Ok_0.0 == ed25519_of_spki(bytes@)->Some_0
+            { unimplemented!() }
+        }
+    }
+}
 
 pub trait ServerCertVerifier {
     fn verify_server_cert(&self, end_entity: &CertificateDer, intermediates: &[CertificateDer], server_name: &ServerName, ocsp_response: &[u8], now: UnixTime) -> core::result::Result<ServerCertVerified, rustls::Error>;
@@ -111,6 +160,14 @@ def unprefix_params(e):
         e.log('X9', 'parameter(s) with a leading underscore renamed (x%d) so that the contract can name them' % k)
 
 
+def name_closure_params(e):
+    """X9: `|_|` closure parameters get a name (Verus does not accept `_` there)"""
+    t2, k = re.subn(r'\|_\|', '|_unused|', e.text)
+    if k:
+        e.text = t2
+        e.log('X9', '`|_|` closure parameter named (x%d)' % k)
+
+
 def sig_contract(who, tls13):
     return '''
     ensures
@@ -120,12 +177,13 @@ def sig_contract(who, tls13):
 
 def build(ctx):
     C = ctx
+    C.helper_rewrites = [dict(rule='X5', pattern=r"\bCertificateDer<'\w+>", repl='CertificateDer', regex=True)]
     t = P.HEADER.replace('use std::collections::HashMap;', 'use std::collections::HashMap;\nuse std::sync::Arc;') + P.STD_SPECS
     t += P.peer_types(C) + P.PEER_ID_AXIOMS
     t += C.item(CRYPTO, 'struct CertVerifier')
     t += C.item(CRYPTO, 'struct ExpectedCertVerifier')
     t += STANDINS + SPEC
-    sigrw = [dict(rule='X5', pattern="CertificateDer<'_>", repl='CertificateDer', optional=True),
+    sigrw = [dict(rule='X5', pattern=r"\bCertificateDer<'\w+>", repl='CertificateDer', regex=True, optional=True),
              dict(rule='X5', pattern='rustls::DigitallySignedStruct', repl='DigitallySignedStruct', optional=True)]
     # ---- CertVerifier as server-cert verifier (client side of a dial without pin) ---------------------------------
     t += '''
@@ -163,6 +221,13 @@ impl ServerCertVerifier for CertVerifier {
         t += C.fn(CRYPTO, 'impl ServerCertVerifier for ExpectedCertVerifier :: fn verify_tls1%s_signature' % v, 'ExpectedCertVerifier::verify_tls1%s_signature' % v,
                   ['C01', 'C03'], ret='r', pub=False, rewrites=sigrw, transforms=[unprefix_params], spec=sig_contract('ExpectedCertVerifier', v == '3'))
     t += '}\n'
+    # ---- the identity of a certificate (crypto.rs peer_id_from_certificate) -----------------------------------------
+    t += C.fn(CRYPTO, 'fn peer_id_from_certificate', 'peer_id_from_certificate', ['C01', 'C03'], ret='r', transforms=[name_closure_params],
+              spec='''
+    ensures
+        r is Ok <==> cert_id(*certificate) is Ok, // @OBL peer_id_from_certificate::fails_closed [C01,C03] an identity is produced only for a certificate that parses as X.509 AND whose SubjectPublicKeyInfo decodes as an Ed25519 key; every parser failure is an error
+        r is Ok ==> r->Ok_0 == cert_id(*certificate)->Ok_0, // @OBL peer_id_from_certificate::is_subject_public_key [C01,C03] the PeerId is exactly the Ed25519 key decoded from the certificate's own SubjectPublicKeyInfo (the key the self-signature and the handshake signature are checked against), not any other field or byte pattern
+''')
     # ---- which certificate the PeerId is read from (connection.rs) -------------------------------------------------
     t += '''
 pub struct Connection { pub inner: QuinnConnection, pub peer_id: PeerId, pub origin: ConnectionOrigin, pub time_established: Instant }
